@@ -605,6 +605,7 @@ def default_table():
         'cuqi.utilities._utilities': dict(issparse=SPA().issparse),
         'cuqi.model._model': dict(csc_matrix=csc_matrix_shim, hstack=hstack_shim),
         'cuqi.testproblem._testproblem': dict(fftconvolve=fftconvolve_shim),
+        'cuqi.geometry._geometry': dict(dst=dst_shim, idst=idst_shim),
     }
 
 
@@ -900,6 +901,49 @@ def sparse_cholesky_shim(A):
 # ---------------------------------------------------------------------------------------------
 # convolution / sparse assembly used by cuqi.model and cuqi.testproblem
 # ---------------------------------------------------------------------------------------------
+# ---------------------------------------------------------------------------------------------
+# discrete sine transform pair used by the KL expansion (scipy.fftpack.dst / idst, type II, unnormalised)
+# ---------------------------------------------------------------------------------------------
+def _dst_pair(N):
+    """contract of the pair for length N: both are linear along the last axis, idst(v) = S v and dst(f) = 2N R f with R S = I
+    (scipy.fftpack documents the unnormalised pair: dst(idst(x)) == 2N x).  S, R are matrices of symbolic constants; R S = I is a
+    hypothesis of the path and is registered as product rewrite rules for the normaliser."""
+    S = _np.array([[SReal(z3.Real(f'dstS{N}_{i}_{k}')) for k in range(N)] for i in range(N)], dtype=object)
+    Rm = _np.array([[SReal(z3.Real(f'dstR{N}_{i}_{k}')) for k in range(N)] for i in range(N)], dtype=object)
+    first = None
+    for i in range(N):
+        for k in range(N):
+            rest = z3.RealVal(1 if i == k else 0)
+            for j in range(1, N): rest = rest - T(Rm[i, j]) * T(S[j, k])
+            hyp = T(Rm[i, 0]) * T(S[0, k]) == rest
+            if first is None:
+                first = hyp
+                if any(h.eq(first) for h in ST.base): return S, Rm
+            ST.base.append(hyp)
+            core.PRODUCT_RULES.append((T(Rm[i, 0]), T(S[0, k]), rest))
+    return S, Rm
+
+
+def idst_shim(x, *a, **k):
+    import scipy.fftpack
+    if not _issym(x): return scipy.fftpack.idst(x, *a, **k)
+    if a or k: raise core.Concretised("idst with options")
+    _hit('scipy.fftpack.idst')
+    x = _obj(x); N = x.shape[-1]
+    S, Rm = _dst_pair(N)
+    return x @ S.T
+
+
+def dst_shim(x, *a, **k):
+    import scipy.fftpack
+    if not _issym(x): return scipy.fftpack.dst(x, *a, **k)
+    if a or k: raise core.Concretised("dst with options")
+    _hit('scipy.fftpack.dst')
+    x = _obj(x); N = x.shape[-1]
+    S, Rm = _dst_pair(N)
+    return (2 * N) * (x @ Rm.T)
+
+
 def fftconvolve_shim(a, b, mode='full', axes=None):
     """contract of scipy.signal.fftconvolve: the direct-sum definition of the (full / valid / same) convolution"""
     import scipy.signal
